@@ -67,7 +67,7 @@ def ensure_mutgen():
         sys.exit("mutgen build failed: " + out)
 
 def make_copy(k):
-    d = "/tmp/mutsweep/w%d" % k
+    d = "/tmp/mutsweep/%d/w%d" % (os.getpid(), k)
     shutil.rmtree(d, ignore_errors=True)
     os.makedirs(d)
     subprocess.check_call(["rsync", "-a", "--exclude", ".git", "/repo/", d + "/repo/"])
